@@ -2,3 +2,6 @@
 import ReuseVerif.Py.Str
 import ReuseVerif.Model.Ignore
 import ReuseVerif.Spec.Ignore
+import ReuseVerif.Py.Re
+import ReuseVerif.Model.Glob
+import ReuseVerif.Spec.Glob
